@@ -107,6 +107,17 @@ def c07():
     ]
 
 
+def c07_specialised():
+    """restructured explicit stepper (zip over the tableau row: outside the size-parametric interpreter) - decided by specialisation"""
+    old = '                ak: Union[float, torch.Tensor] = 0.0\n                aj = a[j]\n                for m in range(j):\n                    ak = aj[m] * ks[m] + ak\n'
+    return [
+        R("c07-erk-zip-ok", "C07", ERK, old, '                ak: Union[float, torch.Tensor] = 0.0\n                for ajm, kprev in zip(a[j], ks):\n                    ak = ajm * kprev + ak\n', None, expect="silent", note="zip(a[j], ks) stops at the j stages computed so far: the same sum"),
+        R("c07-erk-zip-shifted-row", "C07", ERK, old, '                ak: Union[float, torch.Tensor] = 0.0\n                for ajm, kprev in zip(a[j][1:], ks):\n                    ak = ajm * kprev + ak\n', "C07-R", note="zip(a[j][1:], ks): every coefficient paired with the wrong stage"),
+        R("c07-erk-zip-wrong-row", "C07", ERK, old, '                ak: Union[float, torch.Tensor] = 0.0\n                for ajm, kprev in zip(a[j - 1], ks):\n                    ak = ajm * kprev + ak\n', "C07-R", note="row j-1 of the tableau"),
+        R("c07-erk-zip-reversed", "C07", ERK, old, '                ak: Union[float, torch.Tensor] = 0.0\n                for ajm, kprev in zip(a[j], reversed(ks)):\n                    ak = ajm * kprev + ak\n', "C07-R", note="stages paired in reverse order"),
+    ]
+
+
 def c12():
     return [
         R("c12-halfwidth", "C12", FQ, "    xs = xlg * (0.5 * (xu - xl)) + (0.5 * (xu + xl))", "    xs = xlg * (xu - xl) + (0.5 * (xu + xl))", "C12-A"),
@@ -563,5 +574,5 @@ def seeded():
 
 def all_mutants():
     drop = {"hs-module-memo-used", "c01-abe-no-unswap", "c07-rk4-other-order4", "c07-rk45-A", "c07-erk-two-steps-per-interval", "c07-packer-offset"}
-    ms = [m for m in c05() + c06() + c07() + c12() + c14() + c15() + extras() + generic_rules() + round3() + round5() + round6() + seeded() if m["id"] not in drop]
+    ms = [m for m in c05() + c06() + c07() + c07_specialised() + c12() + c14() + c15() + extras() + generic_rules() + round3() + round5() + round6() + seeded() if m["id"] not in drop]
     return ms
